@@ -269,7 +269,12 @@ func covmatCaseRep(t *vlib.T, data [][]float64, ws wspec, reuse bool, kind strin
 					}
 					trace += C[i][i]
 				}
-				tol := 256 * float64(r+c+4) * eps * (trace + 1e-300)
+				// second-order effect of the error tau_j of each computed column mean: sum w (d-delta)^2 = S + W delta^2
+				tau2 := 0.0
+				for j := 0; j < c; j++ {
+					tau2 += cs.cols[j].tau * cs.cols[j].tau
+				}
+				tol := 256*float64(r+c+4)*eps*(trace+1e-300) + 8*cs.Wf*tau2/(cs.Wf-1)
 				sum := 0.0
 				bad := false
 				for j := 0; j < k; j++ {
@@ -676,15 +681,14 @@ func ccaCase(t *vlib.T, xc, yc []int, ws wspec, n int) {
 
 // ccaCaseRep is ccaCase with the two data blocks in the given storage representations.
 func ccaCaseRep(t *vlib.T, xc, yc []int, ws wspec, n int, xkind, ykind string) {
+	ccaDataRep(t, colsOf(xc, n), colsOf(yc, n), ws, xkind, ykind)
+}
+
+// ccaDataRep checks one canonical correlation analysis with the data blocks given by value.
+func ccaDataRep(t *vlib.T, xcols, ycols [][]float64, ws wspec, xkind, ykind string) {
 	w := cloneF(ws.w)
-	xd, yd := len(xc), len(yc)
-	xcols, ycols := make([][]float64, xd), make([][]float64, yd)
-	for i, c := range xc {
-		xcols[i] = ccaCols[c][:n]
-	}
-	for i, c := range yc {
-		ycols[i] = ccaCols[c][:n]
-	}
+	xd, yd := len(xcols), len(ycols)
+	n := len(xcols[0])
 	xrep, yrep := buildRep(xcols, xkind), buildRep(ycols, ykind)
 	X, Y := xrep.m, yrep.m
 	Sx, Sy, Sxy := crossCov(xcols, xcols, w), crossCov(ycols, ycols, w), crossCov(xcols, ycols, w)
@@ -702,7 +706,18 @@ func ccaCaseRep(t *vlib.T, xc, yc []int, ws wspec, n int, xkind, ykind string) {
 		t.Outcome(outcome + " illcond")
 		return
 	}
-	tol := 1024 * float64(n+4) * eps * cond
+	// the error tau of a computed column mean enters the centred cross products in second order
+	// (W tau^2, relative to the smallest variance); negligible unless the mean dwarfs the spread
+	rel2 := 0.0
+	for _, blk := range [][][]float64{xcols, ycols} {
+		for _, col := range blk {
+			m := newMom(col, w)
+			if m.Sf > 0 {
+				rel2 = math.Max(rel2, m.Wf*m.tau*m.tau/m.Sf)
+			}
+		}
+	}
+	tol := 1024 * (float64(n+4)*eps + rel2) * cond
 	var cc stat.CC
 	if err := cc.CanonicalCorrelations(X, Y, w); err != nil {
 		t.Failf("CanonicalCorrelations failed: %v", err)
